@@ -1227,10 +1227,13 @@ fn process_alternatives<'data, P: Platform>(
         // the visibility we'll use for our selected symbol. This seems like odd behaviour, but it
         // matches what GNU ld appears to do and some programs will fail to link if we don't do
         // this.
-        let visibility = alternatives
-            .iter()
-            .fold(symbol_db.input_symbol_visibility(first), |vis, id| {
-                vis.max(symbol_db.input_symbol_visibility(*id))
+        // Definitions in files that aren't part of the link (archive members that weren't loaded)
+        // don't take part in the visibility merge.
+        let visibility = std::iter::once(first)
+            .chain(alternatives.iter().copied())
+            .filter(|id| symbol_db.symbol_strength(*id, resolved) != SymbolStrength::Undefined)
+            .fold(Visibility::Default, |vis, id| {
+                vis.max(symbol_db.input_symbol_visibility(id))
             });
 
         match select_symbol(symbol_db, per_symbol_flags, first, &alternatives, resolved) {
@@ -1239,6 +1242,26 @@ fn process_alternatives<'data, P: Platform>(
 
                 for &alt in &alternatives {
                     symbol_db.update_definition(alt, selected);
+                }
+
+                // A hidden reference that was resolved before the alternatives were selected has only
+                // flagged the first definition of the name. The downgrade applies to the name, so it
+                // must reach whichever definition was selected.
+                let name_flags = std::iter::once(first)
+                    .chain(alternatives.iter().copied())
+                    .map(|id| per_symbol_flags.get_atomic(id).get())
+                    .filter(|f| f.is_downgraded_to_local() && !f.contains(ValueFlags::DYNAMIC))
+                    .fold(ValueFlags::empty(), |acc, f| {
+                        acc | (f & (ValueFlags::NON_INTERPOSABLE | ValueFlags::DOWNGRADE_TO_LOCAL))
+                    });
+
+                if !name_flags.is_empty() {
+                    for id in std::iter::once(first).chain(alternatives.iter().copied()) {
+                        let flags = per_symbol_flags.get_atomic(id);
+                        if !flags.get().contains(ValueFlags::DYNAMIC) {
+                            flags.or_assign(name_flags);
+                        }
+                    }
                 }
 
                 if visibility != Visibility::Default {
